@@ -40,6 +40,8 @@ ASSUMPTIONS = [
     "block grids have fewer than 2^31 blocks (the offsets virtual array is int32) and root_seed + number of blocks <= 2^128",
 ]
 TRUSTED = [
+    "modelled not verified: executions interleave at the granularity of single-key writes, each write atomic (zarr writes a chunk "
+    "with one `set`); overlapping executions (backups) are covered as interleavings of such writes by C06_write_level_interleaving",
     "modelled not verified: cloudpickle round-trip fidelity and the global state of a fresh process (exercised by the oracle's "
     "spawned executions, not proved); Philox streams with distinct keys being statistically independent; zarr codecs being "
     "deterministic (identical arrays encode to identical bytes)",
